@@ -42,7 +42,7 @@ func CompileX(files map[string]string, opt xcl.Options) (string, *vk.Verdict, er
 		return "", vk.Bad("xgo-parser-rejects", "XGo parser: %v", r.ParseErr), r.ParseErr
 	}
 	if r.Err != nil {
-		return "", vk.Bad("cl-rejects", "XGo compiler: %v", r.Err), r.Err
+		return "", vk.Bad(xcl.RejectClass(r.Err), "XGo compiler: %v", r.Err), r.Err
 	}
 	return string(r.Go), nil, nil
 }
